@@ -299,11 +299,12 @@ def server_refusal(ctx, config):
     import Pyro5.api as P
     from Pyro5 import errors
     out = []
-    for size in (1, 2):
+    for size, commtimeout in ((1, 0.0), (2, 0.0), (1, 2.0), (2, 2.0)):
         config.SERVERTYPE = "thread"
         config.THREADPOOL_SIZE = size
         config.THREADPOOL_SIZE_MIN = 1
-        rec = {"size": size, "served": 0, "refused": 0, "reason_ok": True, "other": [], "after": None, "crashed": False}
+        config.COMMTIMEOUT = commtimeout
+        rec = {"size": size, "commtimeout": commtimeout, "served": 0, "refused": 0, "reason_ok": True, "other": [], "after": None, "crashed": False}
 
         @P.expose
         class Echo:
@@ -333,6 +334,50 @@ def server_refusal(ctx, config):
                     if isinstance(x, (S.Hang, S.SchedAbort)):
                         raise
                     rec["other"].append(type(x).__name__)
+            # more peers that find every worker busy: proxies of every serializer; a peer whose connect message names a
+            # serializer nobody knows; and (with a communication timeout configured) a peer that connects and says nothing,
+            # followed by one more client - each of them must be told, none may hold up the next
+            from Pyro5 import protocol
+            from .. import daemonlab as L
+            port = int(d.locationStr.split(":")[1])
+            for ser in ("serpent", "json", "marshal", "msgpack"):
+                px = P.Proxy(uri)
+                px._pyroSerializer = ser
+                try:
+                    px._pyroBind()
+                    rec["other"].append("a proxy got in although every worker was busy")
+                except errors.CommunicationError as x:
+                    if not re.search(r"worker|thread|pool|busy|capacity|full", str(x), re.I):
+                        rec["reason_ok"] = False
+                        rec["other"].append("%s: %s" % (ser, str(x)[:80]))
+                except BaseException as x:     # noqa
+                    if isinstance(x, (S.Hang, S.SchedAbort)):
+                        raise
+                    rec["other"].append("%s: %s" % (ser, type(x).__name__))
+            raw = memnet.NET.create_socket(connect=("127.0.0.1", port))
+            raw.sendall(L.patch(L.connect_msg("echo", "hello", "serpent"), 7, "!B", 99))
+            sc.quiesce()
+            got = bytes(raw.inbuf)
+            if len(got) < 7 or got[6] != protocol.MSG_CONNECTFAIL:
+                rec["other"].append("a connect message with an unknown serializer id was not answered with a connect-failure")
+            raw.close()
+            sc.quiesce()
+            if commtimeout:
+                silent = memnet.NET.create_socket(connect=("127.0.0.1", port))
+                for _ in range(int(commtimeout) + 1):
+                    sc.sleep(1.0)
+                    for p in proxies[:size]:
+                        p.echo("still here")        # (an idle connection would itself be dropped after the timeout)
+                late = P.Proxy(uri)
+                try:
+                    late._pyroBind()
+                    rec["other"].append("a proxy got in although every worker was busy")
+                except errors.CommunicationError as x:
+                    if not re.search(r"worker|thread|pool|busy|capacity|full", str(x), re.I):
+                        rec["reason_ok"] = False
+                        rec["other"].append("behind a silent peer: " + str(x)[:80])
+                silent.close()
+                sc.quiesce()
             # earlier clients are still served; after one leaves a new one gets in
             for i, p in enumerate(proxies[:size]):
                 if p.echo("again") != "again":
@@ -352,6 +397,7 @@ def server_refusal(ctx, config):
             drv.shutdown()
             d.close()
         res, sc = memnet.run(main)
+        config.COMMTIMEOUT = 0.0
         if res.get("hang"):
             rec["other"].append("hang")
         out.append(rec)
@@ -472,7 +518,7 @@ def run(ctx):
         raise util.MachineryError("vacuity: no refusal / no racing close among the recorded histories")
     # (5) the refusal path end to end
     for rec in server_refusal(ctx, config):
-        ctx.count(("server", rec["size"]))
+        ctx.count(("server", rec["size"], rec["commtimeout"]))
         ok = (rec["served"] == rec["size"] and rec["refused"] == 2 and rec["reason_ok"] and not rec["other"]
               and rec["after"] == "new" and not rec["crashed"] and rec.get("busy_end") == 0)
         ctx.sample({"server_refusal": rec}, limit=8)
